@@ -21,6 +21,7 @@ package actionlint
 //@     at_call (*RuleBase).Errorf: pos == exec.Uses.Pos
 //@   loop "range meta.Inputs" #3:
 //@     invariant forall j :: 0 <= j && j < len(ids) ==> meta.Inputs.has(ids[j]) && folded(ids[j])
+//@     invariant disjoint(ns, ids)
 
 //@ func (*RuleWorkflowCall).checkWorkflowCallUsesLocal
 //@   props C14
